@@ -9,7 +9,7 @@ RULE = ("end-to-end grid (oracle): init in {spectral, random, pca, tswspectral, 
         "n in {n_components+2, 5, 8, 30} x n_neighbors in {2,5,15,40} (often > n) x n_components 1..3 x n_epochs {0,1,11} x learning_rate {1, 1e-9} x unique {F,T} with duplicate rows, "
         "data kinds gauss / duplicates / constant column / integer / binary / one feature; asserts dtype float32, shape, finiteness off the isolated set, identical rows for identical "
         "samples under unique.  Correspondence: rescale of user inits via n_epochs=0 fits, (index, inverse) of csr_unique / np.unique vs check_unique, _n_neighbors vs resolve_k, all evaluated in Coq. "
-        "Preconditions respected: more than n_components+1 (distinct, when unique) samples; pca init only when it is defined (n_features > n_components). Non-trivial: any non-default tag.")
+        "Preconditions respected: more than n_components+1 (distinct, when unique) samples; pca init only when scikit-learn defines it (n_components <= min(n, n_features); sparse: n_components < n_features). Non-trivial: any non-default tag.")
 
 METRICS = ["euclidean", "manhattan", "cosine", "hamming", "chebyshev", "correlation", "jaccard", "canberra", "braycurtis"]
 
@@ -20,6 +20,12 @@ def make_data(rng, npr, kind, n, d):
     if kind == "constcol": X[:, 0] = 1.5
     if kind == "ints": X = np.round(X * 2)
     if kind == "binary": X = (X > 0).astype(float)
+    if kind == "rank1":      # one varying feature, all others constant (exactly representable, so centring gives exact zeros)
+        X[:, 1:] = np.array([1.0, 2.0, -7.0, 0.0, 0.5])[: max(d - 1, 0)]
+        if rng.random() < 0.5 and d > 1: X = X[:, ::-1].copy()
+    if kind == "pairs":      # well separated mutual-nearest-neighbour pairs (2-vertex components for n_neighbors = 2)
+        c = np.repeat(npr.normal(size=((n + 1) // 2, d)) * 50, 2, axis=0)[:n]
+        X = c + npr.normal(size=(n, d)) * 0.01
     return X.astype(np.float32)
 
 
@@ -33,10 +39,11 @@ def check_output(ctx, e, X, n, nc, m, desc, where):
         return
     g = m.graph_
     iso = None
-    if g.shape[0] == n:
+    if getattr(m, "unique", False) and hasattr(m, "_unique_inverse_"):
+        # graph_ is over the distinct rows in np.unique's (sorted) order, also when nothing was duplicated
+        iso = (np.asarray(g.sum(axis=1)).ravel() == 0)[np.asarray(m._unique_inverse_).ravel()]
+    elif g.shape[0] == n:
         iso = np.asarray(g.sum(axis=1)).ravel() == 0
-    elif hasattr(m, "_unique_inverse_"):
-        iso = (np.asarray(g.sum(axis=1)).ravel() == 0)[m._unique_inverse_]
     bad = ~np.all(np.isfinite(e), axis=1)
     if iso is not None: bad = bad & ~iso
     if bad.any():
@@ -53,9 +60,25 @@ def run(ctx):
            "Import ListNotations. Open Scope float_scope.\n")
     # ---- oracle grid ---------------------------------------------------------------------------------------------------
     rterms, rcases = [], []
-    for trial in range(70 if quick else 700):
+    # directed corners run on every seed (each is a combination the random grid reaches only rarely)
+    forced = [dict(kind="rank1", init="pca", nc=2, n=12, d=3, nn=5, metric="euclidean"),
+              dict(kind="rank1", init="pca", nc=2, n=40, d=2, nn=15, metric="euclidean"),
+              dict(kind="rank1", init="pca", nc=3, n=20, d=3, nn=5, metric="euclidean"),
+              dict(kind="rank1", init="pca", nc=1, n=9, d=4, nn=5, metric="euclidean"),
+              dict(kind="rank1", init="spectral", nc=2, n=12, d=3, nn=5, metric="manhattan"),
+              dict(kind="pairs", init="spectral", nc=1, n=8, d=3, nn=2, metric="euclidean"),
+              dict(kind="pairs", init="spectral", nc=1, n=4, d=2, nn=2, metric="euclidean"),
+              dict(kind="pairs", init="spectral", nc=2, n=10, d=3, nn=2, metric="euclidean"),
+              dict(kind="pairs", init="tswspectral", nc=1, n=8, d=3, nn=2, metric="euclidean"),
+              dict(kind="constcol", init="pca", nc=2, n=10, d=3, nn=5, metric="euclidean"),
+              dict(kind="dups", init="spectral", nc=2, n=9, d=2, nn=3, metric="euclidean", unique=True, sparse=True),
+              dict(kind="binary", init="random", nc=1, n=12, d=5, nn=40, metric="jaccard")]
+    ntrials = 70 if quick else 700
+    for trial in range(ntrials + len(forced)):
+        fc = forced[trial - ntrials] if trial >= ntrials else None
         nc = rng.choice([1, 2, 3]); n = max(rng.choice([nc + 2, 5, 8, 30]), nc + 2); d = rng.choice([1, 2, 5])
-        kind = rng.choice(["gauss", "dups", "constcol", "ints", "binary"])
+        kind = rng.choice(["gauss", "dups", "constcol", "ints", "binary", "rank1", "pairs"])
+        if fc: nc, n, d, kind = fc["nc"], fc["n"], fc["d"], fc["kind"]
         X = make_data(rng, npr, kind, n, d)
         sparse = rng.random() < 0.3
         metric = rng.choice(METRICS)
@@ -63,13 +86,16 @@ def run(ctx):
         unique = rng.random() < 0.3
         kw = dict(n_components=nc, n_neighbors=rng.choice([2, 5, 15, 40]), n_epochs=rng.choice([0, 1, 11]), learning_rate=rng.choice([1.0, 1e-9, 1.0]),
                   metric=metric, random_state=rng.randrange(100))
+        if fc:
+            sparse, metric, init, unique = fc.get("sparse", False), fc["metric"], fc["init"], fc.get("unique", False)
+            kw.update(n_neighbors=fc["nn"], metric=metric)
         nd = distinct_rows(X)
         if unique and (init.startswith("array") or nd <= nc + 1):
             unique = False     # init arrays are per input row; below nc+2 distinct rows the size precondition fails (probed separately)
         kw["unique"] = unique
         n_fit = nd if unique else n
-        if init == "pca" and (d <= nc or n_fit <= nc):
-            init = "spectral"  # PCA/TruncatedSVD are undefined there (scikit-learn raises): not a valid configuration
+        if init == "pca" and (nc > min(n_fit, d) or (sparse and (d < 2 or nc >= d))):
+            init = "spectral"  # PCA / TruncatedSVD are undefined there (scikit-learn raises): not a valid configuration
         if init == "array": kw["init"] = npr.normal(size=(n, nc)).astype(np.float32)
         elif init == "array_dups":
             a = npr.normal(size=(n, nc)).astype(np.float32); a[1] = a[0]; kw["init"] = a
@@ -95,7 +121,8 @@ def run(ctx):
                     ctx.fail("fit_transform:unique_identical_samples_differ", "identical input rows %s got different embeddings" % idxs[:3], desc); break
         if trial < 1: ctx.sample(dict(desc, output_head=e[:3] if isinstance(e, np.ndarray) else None), 1)
         # correspondence: with n_epochs = 0 and a duplicate-free user init, embedding_ is exactly the rescaled init
-        if init in ("array", "array_const") and kw["n_epochs"] == 0 and isinstance(e, np.ndarray) and e.shape == (n, nc):
+        if init in ("array", "array_const") and kw["n_epochs"] == 0 and isinstance(e, np.ndarray) and e.shape == (n, nc) and np.all(np.isfinite(e)):
+            # (isolated samples legitimately carry NaN rows: such cases are left to the oracle above)
             rterms.append("(%s, %s)" % ("[" + "; ".join(flist(kw["init"][:, c]) for c in range(nc)) + "]", "[" + "; ".join(flist(e[:, c]) for c in range(nc)) + "]"))
             rcases.append(desc)
     # extra rescale cases (cheap, n_epochs = 0)
@@ -127,16 +154,25 @@ def run(ctx):
             for _ in range(rng.randint(1, n)): X[rng.randrange(n)] = X[rng.randrange(n)]
         if style > 0.7: X[X == 0] = 1.0       # all rows with the same number of stored elements
         sparse = rng.random() < 0.6
+        unsorted = sparse and rng.random() < 0.5
         try:
             if sparse:
-                index, inverse, counts = csr_unique(sp.csr_matrix(X))
+                M = sp.csr_matrix(X)
+                if unsorted:      # same matrix, stored entries of each row in a random order (as produced by e.g. A @ B)
+                    ind, dat = M.indices.copy(), M.data.copy()
+                    for r_ in range(n):
+                        lo_, hi_ = M.indptr[r_], M.indptr[r_ + 1]
+                        pm = npr.permutation(hi_ - lo_)
+                        ind[lo_:hi_] = ind[lo_:hi_][pm]; dat[lo_:hi_] = dat[lo_:hi_][pm]
+                    M = sp.csr_matrix((dat, ind, M.indptr.copy()), shape=M.shape)
+                index, inverse, counts = csr_unique(M)
             else:
                 index, inverse, counts = np.unique(X, return_index=True, return_inverse=True, return_counts=True, axis=0)[1:4]
             index = np.asarray(index).ravel().tolist(); inverse = np.asarray(inverse).ravel().tolist()
         except Exception as ex:
             ctx.fail("csr_unique:raises", "%s: %s" % (type(ex).__name__, ex), dict(X=X, sparse=sparse)); continue
         desc = dict(X=X, sparse=sparse, index=index, inverse=inverse)
-        ctx.tag(("unique", c), ["unique_tables"] + (["equal_nnz_rows"] if style > 0.7 else []) + (["has_duplicates"] if distinct_rows(X) < n else []))
+        ctx.tag(("unique", c), ["unique_tables"] + (["equal_nnz_rows"] if style > 0.7 else []) + (["unsorted_csr"] if unsorted else []) + (["has_duplicates"] if distinct_rows(X) < n else []))
         # oracle
         ok = len(inverse) == n and all(0 <= p < len(index) for p in inverse) and all(np.array_equal(X[index[inverse[i]]], X[i]) for i in range(n)) \
             and len({tuple(X[i].tolist()) for i in index}) == len(index) == distinct_rows(X)
@@ -173,6 +209,30 @@ def run(ctx):
         for off, code in enumerate(parse_zlist(bl[0])):
             ctx.traces += 1
             if code != -1: ctx.diff(kcases[off], "resolved n_neighbors")
+    # ---- unique=True on CSR input whose duplicate rows store their entries in different orders --------------------------------
+    for c in range(3 if quick else 15):
+        n = rng.randint(8, 14); d = rng.randint(3, 6)
+        Xu = np.round(npr.normal(size=(n, d)) * 2).astype(np.float32); Xu[Xu == 0] = 1.0
+        for _ in range(3): Xu[rng.randrange(n)] = Xu[rng.randrange(n)]
+        if distinct_rows(Xu) <= 4: continue
+        M = sp.csr_matrix(Xu); ind, dat = M.indices.copy(), M.data.copy()
+        for r_ in range(n):
+            lo_, hi_ = M.indptr[r_], M.indptr[r_ + 1]; pm = npr.permutation(hi_ - lo_)
+            ind[lo_:hi_] = ind[lo_:hi_][pm]; dat[lo_:hi_] = dat[lo_:hi_][pm]
+        M = sp.csr_matrix((dat, ind, M.indptr.copy()), shape=M.shape)
+        desc = dict(X=Xu, sparse="csr with unsorted indices", unique=True, n_neighbors=3)
+        ctx.tag(("unsorted_unique", c), ["unique", "unsorted_csr"])
+        try:
+            e = umap.UMAP(unique=True, n_neighbors=3, n_epochs=2, random_state=0).fit_transform(M)
+        except Exception as ex:
+            ctx.fail("fit_transform:raises:%s" % type(ex).__name__, "%s: %s" % (type(ex).__name__, str(ex)[:200]), desc); continue
+        if not (isinstance(e, np.ndarray) and e.shape == (n, 2)):
+            ctx.fail("fit_transform:shape_or_dtype", "shape %s" % (getattr(e, "shape", None),), desc); continue
+        groups = {}
+        for i, r in enumerate(Xu.tolist()): groups.setdefault(tuple(r), []).append(i)
+        for idxs in groups.values():
+            if len(idxs) > 1 and not all(np.array_equal(e[idxs[0]], e[j], equal_nan=True) for j in idxs[1:]):
+                ctx.fail("fit_transform:unique_identical_samples_differ", "identical input rows %s got different embeddings (unsorted CSR)" % idxs[:3], desc); break
     # ---- probe of the recorded finding: unique=True with no more than n_components+1 distinct rows ------------------------------
     for nd in (1, 2):
         X = np.repeat(npr.normal(size=(nd, 3)).astype(np.float32), 5, axis=0)
@@ -186,4 +246,4 @@ def run(ctx):
         ctx.tag(("probe", nd), ["degenerate_unique_probe"])
     ctx.partial.append("finiteness is a floating-point notion: proved are the absence of invalid real operations in rescale / SGD denominators, the clip bound per move, "
                        "the unique/inverse contract and n_neighbors resolution; spectral / PCA / TruncatedSVD initialisers and NumPy's unique are external and only observed")
-    return ctx.finish(RULE, assumptions=["configurations scikit-learn itself rejects (pca init with n_features <= n_components) are not generated"])
+    return ctx.finish(RULE, assumptions=["configurations scikit-learn itself rejects (pca init with n_components > min(n, n_features); TruncatedSVD with n_components >= n_features) are not generated"])
